@@ -17,7 +17,7 @@ GENERIC_FLOORS = {"evaluations": 1000}
 def P(rule, monitors, inproc=None, cells=None, extra_assume=None, evaluations=1000, proc=None):
     return {"rule": rule, "assumptions": COMMON_ASSUME + (extra_assume or []),
             "floors": {"evaluations": evaluations, "monitors": monitors, "cells": cells or []},
-            "inproc": inproc or {"quick": [("relchk", 16, None)], "thorough": [("relchk", 16, None)]},
+            "inproc": inproc or {"quick": [("relchk", 16, 8.0)], "thorough": [("relchk", 16, 3.0)]},
             "proc": proc or {"quick": [], "thorough": []}}
 
 
@@ -66,16 +66,16 @@ PLANS = {
              cells=["py:apply_serialized(text,text):value", "py:apply_serialized(text):value", "py:apply(obj,obj,ser,de):value", "py:apply(obj):value", "py:apply_serialized(text,text):error", "py:apply(nan-rule):error"], evaluations=500),
     "C01": P("totality of apply and of the public js_op helpers: 35 operators x all ordered pairs of 65 extreme values (64-bit integer extremes, 2^53 / 2^63 / 2^64 neighbours, +-1e308, subnormals, multi-byte strings, numeric strings naming the extremes, odd containers) in bracketed, bare and three-operand index-taking forms; extreme numeric path segments and integer keys; results forced out of range; the deepest chains serde_json delivers (63 bracketed / 127 bare levels) of every operator and in every operand position, 127-level data reached by 19 operators, 20 000-element and 60 000-character documents; random trees (depth <= 5) with extreme values spliced in; every helper on all ordered pairs of 212 values. Lanes: debug, release, release+overflow-checks (all every run), AddressSanitizer and Miri (thorough), the real CLI (debug + release; exit status in {0,1}, no signal, no 'panicked'; nesting 129 .. 200 000 levels) and the real Python extension (only ValueError, interpreter survives). Bounded termination: <= 10 s thread-CPU per call on documents <= 64 KiB. Non-trivial = every case (all are aimed at panics); distinct by (rule, data) text.",
              ["c01.apply", "c01.helpers", "c01.cpu-bound", "c01.cli"],
-             inproc={"quick": [("relchk", 16, None), ("dev", 16, 0.25), ("release", 16, None)],
-                     "thorough": [("relchk", 16, None), ("dev", 16, 0.3), ("release", 16, None), ("asan", 16, 0.1), ("miri", 8, None)]},
+             inproc={"quick": [("relchk", 16, 3.0), ("dev", 16, 0.5), ("release", 16, 3.0)],
+                     "thorough": [("relchk", 16, 2.0), ("dev", 16, 0.3), ("release", 16, 2.0), ("asan", 16, 0.1), ("miri", 8, None)]},
              proc={"quick": [PL.cli_lane, PL.py_lane], "thorough": [PL.cli_lane, PL.py_lane]},
              cells=["matrix-2:value", "matrix-2:error", "matrix-bare:value", "deep-bare:127:*", "deep-bracketed:63:*", "deep-data:value", "wide:value", "range:overflow:error", "index-key:value", "helper:abstract_plus", "class:over-limit-rule"],
              extra_assume=["'never hangs' is restated as a bound: every call on a document of at most 64 KiB finishes within 10 s of thread CPU time (observed maximum is reported); a wall-clock watchdog firing is inconclusive, not a violation",
                            "domain: documents the text interfaces can deliver (serde_json recursion limit 128)"]),
     "C17": P("a pool of (rule, data) pairs (same rule on different data, different rules on the same data, erroring and logging calls; 120 x 8 quick, 400 x 12 thorough) is first evaluated once per pair (isolated result, log trace and allocation count), then driven through randomised histories biased towards 'same rule, other data' / 'other rule, same data' / exact repeats; each result and log trace must equal the isolated one, inputs must be unchanged, net live heap after the call must be 0 and the allocation count must equal the isolated count (hidden caches / memos). Concurrency: 2 / 4 / 16 threads on a barrier share the pool (half of the calls on 8 hot pairs), random yields and spins; each result must equal the isolated one and the multiset of printed lines must be the union of the isolated traces; lanes: native, ThreadSanitizer (build-std), Miri with different seeds. Process level: one call per fresh process vs the same calls in one process; strace deny-list on the real CLI (only writes to fd 1 / 2). Non-trivial = history steps of the two biased kinds and distinct completion orders; distinct by (pair, predecessor) / schedule signature.",
              ["c17.history", "c17.immutability", "c17.heap-conservation", "c17.alloc-determinism", "c17.concurrent", "c17.concurrent-effects", "c17.effects", "c17.log-identity", "c17.syscalls", "c17.fresh-process"],
-             inproc={"quick": [("relchk", 16, None), ("tsan", 8, 0.3), ("miri", 4, None)],
-                     "thorough": [("relchk", 16, None), ("tsan", 16, 0.5), ("miri", 16, None)]},
+             inproc={"quick": [("relchk", 16, 4.0), ("tsan", 8, 0.3), ("miri", 4, None)],
+                     "thorough": [("relchk", 16, 2.0), ("tsan", 16, 0.5), ("miri", 16, None)]},
              proc={"quick": [PL.strace_lane, PL.fresh_process_lane], "thorough": [PL.strace_lane, PL.fresh_process_lane]},
              cells=["history:same-rule-other-data", "history:other-rule-same-data", "history:exact-repeat", "concurrent:threads=16", "concurrent:threads=2"],
              extra_assume=["'every schedule' is sampled, not enumerated: the evidence reports the number of distinct completion orders, TSan executions and Miri seeds",
